@@ -227,6 +227,21 @@ func Open(dir string, opts ...walOpt) (*WAL, error) {
 	// don't need to jump through the mutateState hoops yet!
 	w.s.Store(&newState)
 
+	// If the recovered tail is already sealed, the previous process sealed it
+	// (a final append that filled it, or a tail truncation) but stopped before
+	// the rotation was committed to metadata. Complete that rotation now,
+	// otherwise every append would fail with ErrSealed forever.
+	if sealed, indexStart, err := newState.tail.Sealed(); err != nil {
+		return nil, err
+	} else if sealed {
+		w.writeMu.Lock()
+		err := w.rotateSegmentLocked(indexStart)
+		w.writeMu.Unlock()
+		if err != nil {
+			return nil, err
+		}
+	}
+
 	// Delete any unused segment files left over after a crash.
 	w.deleteSegments(toDelete)
 
